@@ -4,7 +4,7 @@
    bit-exactly by the correspondence run; `logf` is an oracle (see DESIGN.md §2.6): this part of
    the property is therefore *partial* as far as theorems go. *)
 From Coq Require Import Reals.
-From HpoV Require Import Gen.Consts Model.Base Model.Group Model.Onto Model.F32 Model.IC Model.Script Model.Bulk Proofs.C03P Proofs.C03W Proofs.BulkP.
+From HpoV Require Import Gen.Consts Model.Base Model.Group Model.Onto Model.F32 Model.IC Model.Script Model.Bulk Proofs.C03P Proofs.C03W Proofs.BulkP Proofs.BuilderICP Proofs.AcyclicP Proofs.AnnotP Proofs.BuilderAnnotP.
 
 Theorem C03_formula_nonnegative : forall n total, (n <= total)%nat -> (0 <= icR n total)%R.
 Proof. exact icR_nonneg. Qed.
@@ -62,6 +62,20 @@ Theorem C03_bulk_script : forall icf s tag first count, tag <? 3 = true ->
   run_script_bulk icf s tag first count = run_script icf (with_bulk s tag first count).
 Proof. exact run_script_bulk_is_script. Qed.
 
+(* THE PROPERTY FOR EVERY BUILDER SCRIPT: in the finished ontology, for every term and each kind
+   independently, the information content is InformationContent::calculate (N, n) with N the number
+   of records of that kind and n the number of the term's annotations of that kind — and those
+   annotations are exactly the inherited set (second theorem: sorted, hence counted without
+   repetition; exactly the ids with a direct fact at the term or at one of its descendants) *)
+Theorem C03_builder_information_content : forall icf s codes o, run_script icf s = Ok (codes, Ok o) ->
+  forall t, In t (ar_terms (o_arena o)) -> forall k,
+    icf (Nlen (o_records k o)) (Nlen (t_annots k t)) = Ok (ic_of k (t_ic t)).
+Proof. exact run_script_ic. Qed.
+
+Theorem C03_builder_counts_are_the_inherited_sets : forall icf s codes o, run_script icf s = Ok (codes, Ok o) ->
+  acyclic (o_arena o) /\ ann_ok o.
+Proof. exact run_script_ann_ok. Qed.
+
 Print Assumptions C03_formula_nonnegative.
 Print Assumptions C03_formula_antitone.
 Print Assumptions C03_formula_zero.
@@ -73,3 +87,5 @@ Print Assumptions C03_every_term_every_kind.
 Print Assumptions C03_refuses_over_u16.
 Print Assumptions C03_bulk_block_is_calls.
 Print Assumptions C03_bulk_script.
+Print Assumptions C03_builder_information_content.
+Print Assumptions C03_builder_counts_are_the_inherited_sets.
